@@ -155,6 +155,9 @@ class World:
         top = absname.split(".")[0]
         ours = (top in ("nanite", "afmformats") or top in self.DUMMIES
                 or absname in self.shims or top in self.shims)
+        if absname.startswith("nanite_model_sneddon_spher"):
+            # optional extension package (real numpy/lmfit inside): not part of this universe
+            raise ImportError(absname)
         if not ours:
             return builtins.__import__(name, globals, locals, fromlist, level)
         mod = self._get(absname)
